@@ -673,6 +673,9 @@ pub fn plan_for(property: &str, seed: u64) -> Plan {
                 for c in plan.conns.iter_mut() {
                     c.keep_alive = false;
                 }
+                // application pauses (up to a few seconds) must not look like a dead connection
+                plan.cfg.client.limits.idle_timeout_ms = plan.cfg.client.limits.idle_timeout_ms.max(30_000);
+                plan.cfg.server.limits.idle_timeout_ms = plan.cfg.server.limits.idle_timeout_ms.max(30_000);
                 plan
             } else {
                 let p = Profile { max_stream_bytes: 100_000, ..Default::default() };
